@@ -12,7 +12,7 @@ import re
 from . import common
 from .common import Check, iter_joined
 
-FINDINGS = ("nonsymbol-key", "instance-type-by-name", "late-adoption", "clonefrom-aliasing")
+FINDINGS = ("instance-type-by-name", "late-adoption", "clonefrom-aliasing")
 
 
 def split_obs(s):
@@ -94,9 +94,7 @@ def analyse0(hist, impl, model, spec):
                     fail = "accepted although the specification demands a rejection (%s)" % sk[1:]
                     # a listed finding only when the model of the UNCHANGED code predicts this very step
                     # (mk == ik): an acceptance the unchanged code does not show is a violation
-                    if sk == "Enokey" and mk == ik and t[0] == "W" and t[1] in "hjkq" and t[3][0] in "is":
-                        finding = "nonsymbol-key"
-                    elif sk == "Estale" and mk == ik:
+                    if sk == "Estale" and mk == ik:
                         finding = "instance-type-by-name"
                 elif (norm(sk[2:]) != norm(idump)) if decl_diverged else (sk[2:] != idump):
                     fail = "accepted, but the resulting state is not the one the specification allows"
